@@ -107,6 +107,47 @@ def gen_pure(ctx: core.Ctx, modules=None, rule="GEN-PURE", floor=60):
                        construct="module state:" + ";".join(p[1] for p in probs),
                        msg=f"{f.name} keeps state across generations ({'; '.join(p[1] + ' (line ' + str(p[0]) + ')' for p in probs)}): the bytes generated for a "
                            f"definition then depend on what was generated earlier in the same process", line=probs[0][0] if probs else None)
+        # class-level mutable containers that the instances mutate without ever rebinding them: one object shared by every instance
+        for c in ast.walk(tree):
+            if not isinstance(c, ast.ClassDef):
+                continue
+            shared = {}
+            for st in c.body:
+                tg, val = None, None
+                if isinstance(st, ast.Assign) and len(st.targets) == 1 and isinstance(st.targets[0], ast.Name):
+                    tg, val = st.targets[0].id, st.value
+                elif isinstance(st, ast.AnnAssign) and isinstance(st.target, ast.Name) and st.value is not None:
+                    tg, val = st.target.id, st.value
+                if tg is None:
+                    continue
+                mutable = isinstance(val, (ast.Dict, ast.List, ast.Set)) or (isinstance(val, ast.Call) and isinstance(val.func, ast.Name)
+                                                                              and val.func.id in ("dict", "list", "set", "defaultdict", "OrderedDict"))
+                if mutable:
+                    shared[tg] = st.lineno
+            if not shared:
+                continue
+            rebound, mutated = set(), {}
+            for f in ast.walk(c):
+                if not isinstance(f, ast.FunctionDef):
+                    continue
+                for s_ in ast.walk(f):
+                    if isinstance(s_, ast.Assign):
+                        for t in s_.targets:
+                            if isinstance(t, ast.Attribute) and isinstance(t.value, ast.Name) and t.value.id in ("self", "cls") and t.attr in shared:
+                                rebound.add(t.attr)
+                            if isinstance(t, ast.Subscript) and isinstance(t.value, ast.Attribute) and isinstance(t.value.value, ast.Name) \
+                                    and t.value.value.id in ("self", "cls") and t.value.attr in shared:
+                                mutated.setdefault(t.value.attr, s_.lineno)
+                    if isinstance(s_, ast.Call) and isinstance(s_.func, ast.Attribute) and s_.func.attr in ("append", "extend", "update", "setdefault", "add", "insert", "pop", "clear") \
+                            and isinstance(s_.func.value, ast.Attribute) and isinstance(s_.func.value.value, ast.Name) and s_.func.value.value.id in ("self", "cls") \
+                            and s_.func.value.attr in shared:
+                        mutated.setdefault(s_.func.value.attr, s_.lineno)
+            for nm, ln in sorted(mutated.items()):
+                if nm not in rebound:
+                    ctx.oblige(rule, f"{rel}:{c.name}", f"class attribute {nm} shared and mutated", False, file=rel, func=c.name, construct=f"shared class attribute {nm}",
+                               msg=f"{c.name}.{nm} is a mutable container created once in the class body (line {shared[nm]}) and filled through `self.{nm}` (line {ln}) "
+                                   f"without ever being re-created per instance: every {c.name} in the process shares it, so a later instance overwrites the entries "
+                                   f"of an earlier one", line=shared[nm])
     ctx.floor(rule, n, floor, "functions examined for module-level state")
 
 
